@@ -3,6 +3,7 @@
   Corollaries of the pipeline refinement (C03) plus the bounded-sorter invariant (C07).
   Helper lemmas: `Jawk/Lemmas/PipelineSpec.lean`, `Jawk/Lemmas/BucketSort.lean`.
 -/
+import Jawk.Lemmas.RunCor
 import Jawk.Lemmas.PipelineSpec
 namespace Jawk.C08
 open Jawk Pipe
@@ -76,5 +77,42 @@ example : runP ev [.limit 1 (some 2)] [.limit 0 0]
     [{ input := .num (.pos 0) }, { input := .num (.pos 1) }, { input := .num (.pos 2) }, { input := .num (.pos 3) }]
     rfl trivial (by simp [GroupLast])
   simpa [runP, feedBrk, processP, completeP, takeOpt] using this
+
+
+/-! ### the property as stated: the run WITH `--skip S --take T` against the run WITHOUT them
+
+`RunCor.R orc p rows` = the rows that reach the printer for the pipeline `p` that `build` assembles. -/
+
+/-- for every configuration that builds (any other options, `--sort-by` with its bounded top-N sorter included):
+the rows with `--skip` and `--take` are exactly rows S .. S+T-1 of the rows the same configuration yields without them -/
+theorem skip_take_config (orc : Oracles) (c : Cfg) (p : Pipeline) (h : build orc c = .ok p) (hg : c.group = none) :
+    ∃ p0, build orc { c with skip := 0, take := none } = .ok p0 ∧
+      ∀ rows, RunCor.R orc p rows = takeOpt c.take ((RunCor.R orc p0 rows).drop c.skip) :=
+  RunCor.skip_take_config orc c p h hg
+
+/-- with `--group-by`: the group is built from exactly the retained rows of the ungrouped, unlimited
+configuration, and is still emitted (one row) -/
+theorem skip_take_config_group (orc : Oracles) (c : Cfg) (p : Pipeline) (h : build orc c = .ok p)
+    (g : Str) (hg : c.group = some (some g)) :
+    ∃ e p0', parseOptionExpr g = .ok e ∧
+      build orc { c with skip := 0, take := none, group := none } = .ok p0' ∧
+      ∀ rows, RunCor.R orc p rows
+        = [{ input := groupValue (groupOf (evalT orc) e (takeOpt c.take ((RunCor.R orc p0' rows).drop c.skip))) }] :=
+  RunCor.skip_take_config_group orc c p h g hg
+
+/-- end to end, as bytes: the standard output of the run with `--skip` and `--take` is the header and the window of the
+rows of the run without them -/
+theorem run_skip_take (orc : Oracles) (c : Cfg) (sources : List Source) (wOut wErr : Writer) (p : Pipeline)
+    (hpol : c.onError = .ignore) (hb : build orc c = .ok p) (hg : c.group = none)
+    (hna : NoAbort orc p.cfgs) (hw : Unbounded wOut) (hcl : RunSpec.CleanIO sources) (hh : ¬ RunSpec.HeaderMissing p) :
+    ∃ p0, build orc { c with skip := 0, take := none } = .ok p0 ∧
+      RunSpec.headerBytes p0 = RunSpec.headerBytes p ∧
+      (run orc c sources wOut wErr).result = .ok () ∧
+      (run orc c sources wOut wErr).stdout
+        = wOut.out ++ RunSpec.headerBytes p0 ++
+          (takeOpt c.take
+            ((RunCor.R orc p0 (RunSpec.ctxsOfSources { c with skip := 0, take := none } sources 0)).drop c.skip)).flatMap
+            (sinkBytes p0.sink p0.sinkLen) :=
+  RunCor.run_skip_take orc c sources wOut wErr p hpol hb hg hna hw hcl hh
 
 end Jawk.C08
